@@ -1,12 +1,13 @@
 (* C09: witnesses evaluated at binary64 (vm_compute).  They show that
-   (1) ft does not put the origin at the centre sample for odd N (known finding C09-odd-centre),
+   (1) after the repair ft puts the origin at the centre sample for odd N too (a centred delta of length 5
+       is mapped to the constant 1; before the repair the values were not real),
    (2) phasescreen.ift2 is not an inverse of ft2 for odd N (why the package must not export it),
    (3) irft (rft x) = x * (N/2+1)/N, not x (known finding C09-irft-scale).
    And, for every NumOps, that phasescreen.ift2 coincides with fouriertransform.ift2 on even square
    arrays. *)
 From Coq Require Import ZArith List Bool Arith Lia PrimFloat.
 Require Import AOV.base.Num AOV.base.FloatFun AOV.base.NumF AOV.base.Cplx AOV.model.Fourier
-               AOV.proofs.Dft_proofs.
+               AOV.proofs.Dft_proofs AOV.proofs.C09_proofs.
 Import ListNotations.
 Local Open Scope float_scope.
 
@@ -14,13 +15,13 @@ Definition F := FOps [].
 Definition cflat (l : list (float * float)) : list float := flat_map (fun z => [fst z; snd z]) l.
 Definition cflat2 (m : list (list (float * float))) : list float := flat_map cflat m.
 
-(* (1) centred delta of length 5: a transform with its origin at the centre sample would give the
-   constant delta = 1 (real); ft returns non-real values *)
+(* (1) centred delta of length 5: a transform with its origin at the centre sample gives the
+   constant delta = 1 (real); the repaired ft does *)
 Definition delta5 : list (float * float) := [(0,0); (0,0); (1,0); (0,0); (0,0)].
-Lemma ft_odd_not_centred :
-  all_close 0x1p-20 1 (cflat (ft F delta5 1)) (cflat [(1,0); (1,0); (1,0); (1,0); (1,0)]) = false.
+Lemma ft_odd_centred_delta5 :
+  all_close 0x1p-40 1 (cflat (ft F delta5 1)) (cflat [(1,0); (1,0); (1,0); (1,0); (1,0)]) = true.
 Proof. vm_compute. reflexivity. Qed.
-(* ... whereas for even N it does *)
+(* ... as for even N *)
 Definition delta4 : list (float * float) := [(0,0); (0,0); (1,0); (0,0)].
 Lemma ft_even_centred :
   all_close 0x1p-40 1 (cflat (ft F delta4 1)) (cflat [(1,0); (1,0); (1,0); (1,0)]) = true.
@@ -43,15 +44,31 @@ Lemma irft_rft_scale :
 Proof. split; vm_compute; reflexivity. Qed.
 
 (* generic: on even square arrays the two ift2 coincide *)
+Lemma idft_length_gen {T} (O : NumOps T) (x : list (@cx T)) : length (idft O x) = length x.
+Proof. unfold idft. rewrite map_length, seq_length. reflexivity. Qed.
+Lemma wf_idft2_gen {T} (O : NumOps T) r c (m : list (list (@cx T))) :
+  wf_mat r c m -> (0 < r)%nat -> (0 < c)%nat -> wf_mat r c (idft2 O m).
+Proof.
+  intros Hwf Hr Hc. unfold idft2. apply wf_transpose; [|exact Hc].
+  apply wf_map; [apply idft_length_gen|]. apply wf_transpose; [|exact Hr].
+  apply wf_map; [apply idft_length_gen|exact Hwf].
+Qed.
+Lemma fftshift2_even {A} r c (m : list (list A)) :
+  wf_mat r c m -> Nat.even r = true -> Nat.even c = true -> fftshift2 m = ifftshift2 m.
+Proof.
+  intros [Hl Hf] Hr Hc. unfold fftshift2, ifftshift2.
+  rewrite (fftshift_even _ (map fftshift m)) by (rewrite map_length, Hl; exact Hr).
+  f_equal. apply map_ext_in. intros row Hrow. rewrite Forall_forall in Hf.
+  apply fftshift_even. rewrite (Hf row Hrow). exact Hc.
+Qed.
 Lemma ps_ift2_eq_ift2_even_square {T} (O : NumOps T) n (m : list (list (@cx T))) delta_f :
   wf_mat n n m -> Nat.even n = true -> (0 < n)%nat -> ps_ift2 O m delta_f = ift2 O m delta_f.
 Proof.
-  intros [Hl Hf] He Hn. unfold ps_ift2, ift2.
+  intros Hwf He Hn. unfold ps_ift2, ift2.
   assert (Hc : ncols m = n).
-  { destruct m as [|row m]; [simpl in Hl; lia|]. simpl. inversion Hf; assumption. }
-  unfold nlen. rewrite Hl, Hc. f_equal. f_equal. f_equal.
-  unfold fftshift2, ifftshift2.
-  rewrite (fftshift_even _ (map fftshift m)) by (rewrite map_length, Hl; exact He).
-  f_equal. apply map_ext_in. intros row Hrow. rewrite Forall_forall in Hf.
-  apply fftshift_even. rewrite (Hf row Hrow). exact He.
+  { destruct Hwf as [Hl Hf]. destruct m as [|row m]; [simpl in Hl; lia|]. simpl. inversion Hf; assumption. }
+  unfold nlen. destruct Hwf as [Hl Hf]. rewrite Hl, Hc. f_equal.
+  rewrite (fftshift2_even n n m (conj Hl Hf) He He).
+  symmetry. apply (fftshift2_even n n); [|exact He|exact He].
+  apply wf_idft2_gen; [|exact Hn|exact Hn]. apply wf_ifftshift2. split; assumption.
 Qed.
